@@ -12,10 +12,19 @@ pub struct C19;
 const SHARED_SLOT: u8 = 3;
 
 fn thread_call(rng: &mut Rng, tid: usize, sc: &mut Scenario, have_files: &mut bool) -> Call {
-    let src = match rng.below(10) {
+    let src = match rng.below(12) {
+        10 | 11 => {
+            // several threads deep inside nested constructs at the same time (a shared budget shows only then)
+            let d = 14 + rng.usize_below(14);
+            gen::deep_parens(rng, d)
+        }
         0 | 1 | 2 => gen::polluter(rng),
         3 | 4 | 5 => gen::sensitive_probe(rng),
-        6 | 7 => gen::corpus_sv(rng, 1200).to_string(),
+        6 => gen::corpus_sv(rng, 1200).to_string(),
+        7 => {
+            let t = gen::corpus_sv(rng, 1000).to_string();
+            gen::inject_directives(rng, &t)
+        }
         8 => {
             let k = 1 + rng.usize_below(3);
             gen::sv_program(rng, k)
@@ -154,6 +163,19 @@ impl Property for C19 {
         } else {
             sc.family = "distinct-buffers".into();
         }
+        if rng.chance(1, 8) {
+            // free-running supplement: more calls per thread, all threads released together
+            for t in threads.iter_mut() {
+                let extra: Vec<Op> = t.iter().cloned().collect();
+                for _ in 0..2 {
+                    t.extend(extra.clone());
+                }
+            }
+            sc.threads = threads;
+            sc.schedule = Schedule::Free;
+            sc.family = format!("{}+free-running", sc.family);
+            return sc;
+        }
         sc.threads = threads;
         let s = rng.next();
         sc.schedule = match rng.below(8) {
@@ -218,7 +240,13 @@ impl Property for C19 {
                 }
             }
         }
-        if !rep.violations.is_empty() {
+        if matches!(sc.schedule, Schedule::Free) {
+            rep.probe("free_running_runs", 1);
+            if let Some(v) = rep.violations.first_mut() {
+                v.clause = "C19.digest_vs_alone_free_running".into();
+                v.detail = format!("{} [free-running supplement: the interleaving was not decided by the simulator; replay is statistical]", v.detail);
+            }
+        } else if !rep.violations.is_empty() {
             let mut frozen = sc.clone();
             frozen.schedule = Schedule::Explicit { switches: out.sched.switches.clone() };
             // only offer the frozen form if it reproduces
